@@ -1634,7 +1634,24 @@ macro_rules! dispatch {
     };
 }
 
+// fn dispatch_case(elem, n, hdr, ops, out) -> bool: one monomorphised run_case per
+// (element type, capacity); the capacity lists are written by build.rs (base
+// lists + VERIF_EXTRA_CAPS, the capacities a changed source text steers the
+// search to)
+include!(concat!(env!("OUT_DIR"), "/caps.rs"));
+
 fn main() {
+    // the buffers under test live on the stack; large capacities need room
+    let child = std::thread::Builder::new()
+        .stack_size(3 << 30)
+        .spawn(real_main)
+        .expect("spawn");
+    if child.join().is_err() {
+        std::process::exit(101);
+    }
+}
+
+fn real_main() {
     let args: Vec<String> = std::env::args().collect();
     if args.len() < 3 {
         eprintln!("usage: cbharness <cases> <out> [skip]");
@@ -1714,16 +1731,7 @@ fn main() {
         // hang is attributed to it
         writeln!(out, "{}", line).unwrap();
         out.flush().unwrap();
-        let ok = match kvs["elem"] {
-            "E" => dispatch!(n, E, &hdr, &ops, &mut out; 0, 1, 2, 3, 4, 5, 6, 7, 8, 9, 10, 11, 12, 13, 15, 16, 17, 31, 32, 33, 64, 65, 100, 128, 255, 256, 257, 1000),
-            "B" => dispatch!(n, B, &hdr, &ops, &mut out; 0, 1, 2, 3, 4, 5, 6, 7, 8, 9, 12, 13, 16, 17, 32, 33, 64, 100, 257, 1000),
-            "u8" => dispatch!(n, u8, &hdr, &ops, &mut out; 0, 1, 2, 3, 4, 5, 6, 7, 8, 9, 12, 15, 16, 17, 32, 33, 64, 100, 255, 256, 257, 1000, 4096),
-            "Z" => dispatch!(n, Z, &hdr, &ops, &mut out; 0, 1, 2, 3, 4,
-                65537, 4294967295, 4294967296, 4294967297,
-                9223372036854775807, 9223372036854775808, 9223372036854775809,
-                18446744073709551614, 18446744073709551615),
-            _ => false,
-        };
+        let ok = dispatch_case(kvs["elem"], n, &hdr, &ops, &mut out);
         if !ok {
             writeln!(out, "unsupported-case").unwrap();
         }
